@@ -85,5 +85,15 @@ CHECKS["C01"] = {
             "recomputed from learner.data at every admissible output range.",
     "design_ref": "DESIGN.md section 6 C01", "note": _L1D_NOTE, "technique": T,
 }
+CHECKS["C02"] = {
+    "level": "proof",
+    "text": "Kernel-checked for every state reachable by a valid history (points in bounds, batch only once both end points are known "
+            "or pending), every loss function and request size: ask returns exactly n distinct in-domain points none of which is "
+            "evaluated or pending; missing bounds first; empty learner samples uniformly; the rest are equal subdivisions of pairwise "
+            "different intervals between neighbouring known points; greedy water-filling is optimal for every monotone rounding "
+            "(abstract theorem; its link to the concrete loop is listed under partial_theorems until proved). Tie: bit-exact "
+            "lock-step of ask results. Search: freshness/equal parts/single-move/brute-force optimality on every reached state.",
+    "design_ref": "DESIGN.md section 6 C02", "note": _L1D_NOTE, "technique": T,
+}
 _PENDING = "machinery for this property is not built yet in this commit (work in progress; see DESIGN.md section 9)"
 NOT_APPLICABLE = {f"C{i:02d}": _PENDING for i in range(1, 21) if f"C{i:02d}" not in CHECKS}
